@@ -123,3 +123,29 @@ def replay_hex(c, pid, path):
         if v["prop"] == pid:
             c.violation(v["sig"], v["why"], {"kind": "deflate-hex", "hex": hx})
     return c.finish(rule="replay of one saved case")
+
+
+def mc_deflate(c, wd):
+    """The reader's grammar as a state machine over the catalogue of MC_Deflate."""
+    r = mc("MC_Deflate", wd, constants={"Emit": "FALSE"},
+           invariants=["Total", "Verdicts", "ProperPrefixOfValid", "ReserialiseIsIdentity"], properties=["Terminates"],
+           must_cover=["Next"], timeout=3000)
+    c.add_model(r, "DEFLATE reader grammar: every production, every way it can fail, end of input inside every "
+                   "field (all byte prefixes of 31 catalogue inputs)")
+    return r
+
+
+def replay_catalogue(c, wd, pid):
+    """spec -> impl: the catalogue with the verdict, reason and tokens the specification computed."""
+    cat = os.path.join(wd, "catalogue.ndjson")
+    generate("MC_Deflate", wd, cat, constants={"Emit": "TRUE"}, invariants=["Replay"], timeout=3000)
+    res = cat + ".res"
+    vh(["deflate-edge-replay", "--in", cat, "--out", res])
+    rs = list(read_ndjson(res))
+    account(c, rs, pid, "grammar catalogue")
+    len_obs = sorted({r["spec"]["reason"] for r in rs if r.get("leniency")})
+    c.cov["library_more_lenient_than_rfc_on"] = len_obs
+    unexpected = [r["label"] for r in rs if r.get("leniency") and not r["spec"]["lenient"]]
+    if unexpected:
+        c.note("the library accepts inputs RFC 1951 and zlib reject, beyond the documented leniencies: %s" % unexpected[:5])
+    return rs
